@@ -1485,9 +1485,13 @@ class SpaceManager(SharedSpaceOperations):
                 if self.get_deriv_bases(c, defined_only=True)[0] is not cells:
                     continue    # Skip cells derived from another base
             space.clear_subs_rootitems()
-            space.cells[cells.name].on_set_property(
-                flags, define, func, enable_cache
-            )
+            if c is cells:
+                c.on_set_property(flags, define, func, enable_cache)
+            else:
+                # A derived cells takes the formula and the flags of the
+                # cells it is derived from now: it may have been derived
+                # from another base before ``cells`` became defined
+                c.on_inherit(self, self.get_deriv_bases(c, defined_only=True))
             define = False  # Do not define derived cells
 
     def set_cells_formula(self, cells, func):
